@@ -73,6 +73,9 @@ Definition casei_index (r : reg) : gmap string (list string) :=
 Definition nload (ds : list rawdef) : res nreg :=
   r ←r elab ds; Ok (NReg (build_cache r) (casei_index r) ∅).
 
+Definition nreg_of (ds : list rawdef) : nreg :=
+  match nload ds with Ok nr => nr | Err _ => NReg empty_reg ∅ ∅ end.
+
 (** * Candidate enumeration with the case-sensitivity flag: [_yield_unit_triplets] *)
 Definition strip_name (s pk suffix : string) : string :=
   let name := str_drop (String.length pk) s in
@@ -85,17 +88,20 @@ Definition lookup_defs (nr : nreg) (cs : bool) (name : string) : list udef :=
   if cs then match r_units (n_reg nr) !! name with Some d => [d] | None => [] end
   else omap (λ real, r_units (n_reg nr) !! real) (default [] (n_casei nr !! lower name)).
 
+(** (the test on the suffix does not depend on the prefix: it is made once per suffix) *)
 Definition triplets_cs (nr : nreg) (cs : bool) (s : string) : list (string * string) :=
   flat_map (λ suffix,
-    flat_map (λ pk,
-      if String.prefix pk s && ends_with suffix s then
-        let name := strip_name s pk suffix in
-        if plural_guard suffix name then []
-        else match r_prefixes (n_reg nr) !! pk with
-             | Some p => map (λ d, (p_name p, u_name d)) (lookup_defs nr cs name)
-             | None => []
-             end
-      else []) (r_prefix_keys (n_reg nr))) suffixes.
+    if ends_with suffix s then
+      flat_map (λ pk,
+        if String.prefix pk s then
+          let name := strip_name s pk suffix in
+          if plural_guard suffix name then []
+          else match r_prefixes (n_reg nr) !! pk with
+               | Some p => map (λ d, (p_name p, u_name d)) (lookup_defs nr cs name)
+               | None => []
+               end
+        else []) (r_prefix_keys (n_reg nr))
+    else []) suffixes.
 
 Definition n_cand (nr : nreg) (cs : bool) (s : string) : list (string * string) :=
   dedup_candidates (triplets_cs nr cs s).
